@@ -36,7 +36,7 @@ META = {
                   'between the quotes, stripped) are trusted; only '
                   'single-line values; no inheritance/broadcast layering.',
     'design_ref': 'DESIGN.md §5 C41',
-    'budget': {'quick': 90, 'thorough': 900},
+    'budget': {'quick': 120, 'thorough': 900},
 }
 RULE = ('case = one flow.cylc with several tasks, each with its own generated '
         '[environment] section, evaluated in one bash process; evaluations '
@@ -69,7 +69,7 @@ MIN = {
     'haz:nonascii': 150, 'haz:meta': 300, 'haz:inner_tilde': 50,
     'export_checked': 4000,
 }
-NCASES = {'quick': 640, 'thorough': 8000}
+NCASES = {'quick': 480, 'thorough': 8000}
 CASE_TIMEOUT = 60
 
 # ------------------------------------------------------------------ alphabet
